@@ -151,3 +151,14 @@ def build_table(path, nlevels, maxlen, rowfn, procs=16):
                         raise RepoRaised(*chunk[1:])
                     f.write(chunk)
     return total
+
+
+def flag(rng, b):
+    """a boolean option in the scalar forms a caller may hand over: python bool, numpy bool, int"""
+    k = int(rng.integers(3))
+    return [bool(b), np.bool_(b), int(bool(b))][k]
+
+
+def intlike(rng, k):
+    """an integer option as python int / numpy int64 / numpy int32"""
+    return [int(k), np.int64(k), np.int32(k)][int(rng.integers(3))]
